@@ -98,6 +98,10 @@ func TestC17(t *testing.T) {
 func c17prop(r *simkit.Run) {
 	rt := r.T
 	n := rapid.IntRange(1, 20).Draw(rt, "buckets")
+	if rapid.IntRange(0, 5).Draw(rt, "many-buckets") == 0 {
+		// the constructor accepts any positive count: around the widths of machine words, and well beyond
+		n = rapid.SampledFrom([]int{31, 32, 33, 63, 64, 65, 66, 100, 127, 128, 129, 300}).Draw(rt, "bucket-count")
+	}
 	res := drawResolution(rt)
 	epoch := time.Unix(rapid.Int64Range(1_000_000_000, 4_400_000_000).Draw(rt, "epoch-s"), rapid.Int64Range(0, 999_999_999).Draw(rt, "epoch-ns")).UTC()
 	clock.SimFreeze(epoch)
